@@ -37,11 +37,12 @@ theorem inv_wait {a : Nat} {s : Sys} {l1 l2 : List Th} {r : Role}
     Inv a (if s.readWG = 0 then { s with ths := l1 ++ ⟨r, .done .ok⟩ :: l2 } else { s with ths := l1 ++ ⟨r, .parkedWait⟩ :: l2 }) := by
   have hthr := h.thr ⟨r, .atWait⟩ (by rw [hs]; simp)
   split
-  · exact inv_quiet h hs (by simp) rfl (by simp) (by simp)
-      ⟨by simp, by simp, by simp, fun hr _ => hthr.2.2.2.1 hr (by simp), by simp⟩
+  · exact inv_quiet h hs (by simp) (by simp) (by simp) rfl (by simp) (by simp)
+      ⟨by simp, by simp, by simp, fun hr _ => hthr.2.2.2.1 hr (by simp), by simp,
+        fun i hr _ => hthr.2.2.2.2.2 i hr (by simp)⟩
   · next hrw =>
-    refine inv_quiet h hs (by simp) rfl (by simp) (by simp) ⟨?_, fun _ => hthr.2.1 (Or.inl rfl), by simp,
-      fun hr _ => hthr.2.2.2.1 hr (by simp), by simp⟩
+    refine inv_quiet h hs (by simp) (by simp) (by simp) rfl (by simp) (by simp) ⟨?_, fun _ => hthr.2.1 (Or.inl rfl), by simp,
+      fun hr _ => hthr.2.2.2.1 hr (by simp), by simp, fun i hr _ => hthr.2.2.2.2.2 i hr (by simp)⟩
     intro _
     cases hsc : s.sockClosed with
     | false => rfl
@@ -64,7 +65,7 @@ theorem inv_step {a : Nat} {s : Sys} (h : Inv a s) (t : Nat) : Inv a (step s t) 
       cases p with
       | start =>
         simp only [setPc_eq' s l1 l2 _ _ hs]
-        exact inv_quiet h hs (by simp) rfl (by simp) (by simp) ⟨by simp, by simp, by simp, by simp, by simp⟩
+        exact inv_quiet h hs (by simp) (by simp) (by simp) rfl (by simp) (by simp) ⟨by simp, by simp, by simp, by simp, by simp, by simp⟩
       | atSelect =>
         simp only
         cases hq : s.acceptQ with
@@ -72,9 +73,9 @@ theorem inv_step {a : Nat} {s : Sys} (h : Inv a s) (t : Nat) : Inv a (step s t) 
           simp only
           split
           · simp only [setPc_eq' s l1 l2 _ _ hs]
-            exact inv_quiet h hs (by simp) rfl (by simp) (by simp) ⟨by simp, by simp, by simp, by simp, by simp⟩
+            exact inv_quiet h hs (by simp) (by simp) (by simp) rfl (by simp) (by simp) ⟨by simp, by simp, by simp, by simp, by simp, by simp⟩
           · simp only [setPc_eq' s l1 l2 _ _ hs]
-            exact inv_quiet h hs (by simp) rfl (by simp) (by simp) ⟨by simp, by simp, by simp, by simp, by simp⟩
+            exact inv_quiet h hs (by simp) (by simp) (by simp) rfl (by simp) (by simp) ⟨by simp, by simp, by simp, by simp, by simp, by simp⟩
         | cons c rest =>
           simp only
           rw [setPc_eq' { s with acceptQ := rest } l1 l2 _ _ hs]
@@ -125,6 +126,37 @@ theorem inv_step {a : Nat} {s : Sys} (h : Inv a s) (t : Nat) : Inv a (step s t) 
           exact this
         · have := inv_clock h hs hpend _ rfl (.done .ok) (Or.inr rfl)
           exact this
+      | atWait => exact hwait _ hs
+      | _ => exact h
+    | acloser i =>
+      cases p with
+      | start =>
+        simp only
+        cases hai : s.accepted? i with
+        | none => exact h
+        | some c0 =>
+          simp only
+          rw [setPc_casc _ l1 l2 ⟨.acloser i, .start⟩ .atLock (hpc := by intro b; cases b <;> rfl)] <;> try exact hs
+          have := inv_astart h hs (by rw [← accepted?_eq]; exact hai) _ rfl
+          exact this
+      | atLock =>
+        simp only
+        by_cases hpend' : s.arrPending = true
+        · rw [if_pos hpend']; exact h
+        rw [if_neg hpend']
+        have hpend : s.arrPending = false := by simpa using hpend'
+        cases hai : s.accepted? i with
+        | none => exact h
+        | some c0 =>
+          simp only
+          have hai' : accL s.ths i = some c0 := by rw [← accepted?_eq]; exact hai
+          rw [setPc_eq' _ l1 l2 ⟨.acloser i, .atLock⟩ .atWait, setPc_eq' _ l1 l2 ⟨.acloser i, .atLock⟩ (.done .ok)] <;> try exact hs
+          split
+          · next hl =>
+            have := inv_alock h hs hai' hpend _ rfl .atWait (Or.inl ⟨rfl, List.isEmpty_iff.1 hl.1, by simpa using hl.2⟩)
+            exact this
+          · have := inv_alock h hs hai' hpend _ rfl (.done .ok) (Or.inr rfl)
+            exact this
       | atWait => exact hwait _ hs
       | _ => exact h
 
@@ -197,7 +229,7 @@ theorem inv_stepOp {a : Nat} {s : Sys} (h : Inv a s) (backlog : Nat) (op : Op) :
         simp only at hr hp
         subst hr hp
         rw [setPc_eq' s l1 l2 _ _ hs]
-        exact inv_quiet h hs (by simp) rfl (by simp) (by simp) ⟨by simp, by simp, by simp, by simp, by simp⟩
+        exact inv_quiet h hs (by simp) (by simp) (by simp) rfl (by simp) (by simp) ⟨by simp, by simp, by simp, by simp, by simp, by simp⟩
       · exact inv_step h t
 
 theorem inv_run {a : Nat} (backlog : Nat) (ops : List Op) {s : Sys} (h : Inv a s) : Inv a (run backlog s ops) := by
@@ -223,11 +255,16 @@ theorem taken_init (roles : List Role) : taken (roles.map (fun r => ({ role := r
   | nil => rfl
   | cons r rs ih => simp [taken_cons, ih, takenOf]
 
+theorem astarted_init (roles : List Role) : astarted (roles.map (fun r => ({ role := r, pc := .start } : Th))) = 0 := by
+  induction roles with
+  | nil => rfl
+  | cons r rs ih => simp [astarted_cons, ih]
+
 theorem inv_init (a q : Nat) (roles : List Role) (hw : WfRoles a roles) : Inv a (Sys.init a q roles) := by
-  refine ⟨?_, ?_, ?_, ?_, ?_, ?_, ?_, ?_, ?_, ?_, ?_⟩
+  refine ⟨?_, ?_, ?_, ?_, ?_, ?_, ?_, ?_, ?_, ?_, ?_, ?_⟩
   · simpa [Sys.init, List.map_map, Function.comp_def] using hw
-  · show 1 + a + q = _ + ((List.range q).map (· + a)).length + openCnt a _ + (taken _).length
-    simp only [Sys.init, relL_init, taken_init, openCnt, started_init]
+  · show 1 + a + q + astarted _ = _ + ((List.range q).map (· + a)).length + openCnt a _ + (taken _).length
+    simp only [Sys.init, relL_init, taken_init, openCnt, started_init, astarted_init]
     simp
     omega
   · simp [Sys.init]
@@ -251,7 +288,9 @@ theorem inv_init (a q : Nat) (roles : List Role) (hw : WfRoles a roles) : Inv a 
   · intro th hth
     simp only [Sys.init, List.mem_map] at hth
     obtain ⟨r, _, rfl⟩ := hth
-    exact ⟨by simp, by simp, by simp, by simp, by simp⟩
+    exact ⟨by simp, by simp, by simp, by simp, by simp, by simp⟩
+  · show (taken _).Nodup
+    simp [Sys.init, taken_init]
 
 theorem inv_reach {a q backlog : Nat} {roles : List Role} (ops : List Op) (hw : WfRoles a roles) :
     Inv a (run backlog (Sys.init a q roles) ops) :=
@@ -259,21 +298,41 @@ theorem inv_reach {a q backlog : Nat} {roles : List Role} (ops : List Op) (hw : 
 
 /-! ### consequences -/
 
-theorem openHeld_of_inv {a : Nat} {s : Sys} (h : Inv a s) : openHeld a s = openCnt a s.ths + (taken s.ths).length := by
-  rw [openHeld_eq, List.filter_append, List.length_append, openCnt, List.countP_eq_length_filter]
-  congr 2
-  rw [List.filter_eq_self]
-  intro c hc
+/-- everything handed out during the phase has an id from `a` on -/
+theorem taken_ge {a : Nat} {s : Sys} (h : Inv a s) {c : Nat} (hc : c ∈ taken s.ths) : a ≤ c := by
   obtain ⟨th, hm, hp⟩ := (mem_taken _ _).1 hc
-  have hge := ((h.thr th hm).2.2.2.2 c hp).1
-  cases hst : started s.ths c with
-  | false => rfl
-  | true =>
-    have := started_lt h.wf hst
-    omega
+  exact ((h.thr th hm).2.2.2.2.1 c hp).1
+
+theorem openHeld_of_inv {a : Nat} {s : Sys} (h : Inv a s) :
+    openHeld a s + astarted s.ths = openCnt a s.ths + (taken s.ths).length := by
+  rw [openHeld_eq, List.filter_append, List.length_append, openCnt, List.countP_eq_length_filter]
+  have e1 : (List.range a).filter (fun c => !(started s.ths c || tgtd s.ths c)) = (List.range a).filter (fun c => !started s.ths c) := by
+    apply List.filter_congr
+    intro c hc
+    rw [List.mem_range] at hc
+    cases ht : tgtd s.ths c with
+    | false => simp
+    | true =>
+      obtain ⟨x, _, i, _, _, hai⟩ := (tgtd_true_iff _ _).1 ht
+      have := taken_ge h (accL_mem_taken hai)
+      omega
+  have e2 : (taken s.ths).filter (fun c => !(started s.ths c || tgtd s.ths c)) = (taken s.ths).filter (fun c => !tgtd s.ths c) := by
+    apply List.filter_congr
+    intro c hc
+    have hge := taken_ge h hc
+    cases hst : started s.ths c with
+    | false => simp
+    | true =>
+      have := started_lt h.wf hst
+      omega
+  rw [e1, e2]
+  have := count_taken h.wf5 h.tnd h.n2
+  omega
 
 theorem count_of_inv {a : Nat} {s : Sys} (h : Inv a s) : s.wg = listenerRef s + s.acceptQ.length + openHeld a s := by
-  rw [openHeld_of_inv h, listenerRef_eq, h.count]
+  have := openHeld_of_inv h
+  have := h.count
+  rw [listenerRef_eq]
   omega
 
 theorem sock_of_inv {a : Nat} {s : Sys} (h : Inv a s) :
@@ -317,13 +376,19 @@ theorem stuck_of_inv {a : Nat} {s : Sys} (h : Inv a s) (hq : ∀ th ∈ s.ths, t
     | cons c rest =>
       have := (h.qok c (by simp [hq'])).2.2
       rw [htb] at this; cases this
-  have htk : taken s.ths = [] := by
-    cases hk : taken s.ths with
-    | nil => rfl
-    | cons c rest =>
-      obtain ⟨x, hx, hxp⟩ := (mem_taken s.ths c).1 (by simp [hk])
-      have := ((h.thr x hx).2.2.2.2 c hxp).2.2.1
-      rw [htb] at this; cases this
+  have htk : (taken s.ths).length = astarted s.ths := by
+    have hcnt := count_taken h.wf5 h.tnd h.n2
+    have : (taken s.ths).filter (fun c => !tgtd s.ths c) = [] := by
+      rw [List.filter_eq_nil_iff]
+      intro c hc
+      obtain ⟨x, hx, hxp⟩ := (mem_taken s.ths c).1 hc
+      have := ((h.thr x hx).2.2.2.2.1 c hxp).2.2.1
+      rw [htb] at this
+      rcases this with hh | hh
+      · cases hh
+      · simp [hh]
+    rw [this] at hcnt
+    simpa using hcnt.symm
   have hoc : openCnt a s.ths = 0 := by
     unfold openCnt
     rw [List.countP_eq_zero]
@@ -332,7 +397,10 @@ theorem stuck_of_inv {a : Nat} {s : Sys} (h : Inv a s) (hq : ∀ th ∈ s.ths, t
     have := h.tbl c hc (by rw [htb]; simp)
     simp [this]
   have hwg : s.wg = 0 := by
-    rw [h.count, hrel, hq0, htk, hoc]; rfl
+    have := h.count
+    rw [hrel, hq0, htk, hoc] at this
+    simp at this
+    omega
   have := h.sock.2 hwg
   rw [hsc] at this; cases this
 
